@@ -66,9 +66,9 @@ CLAIMS = {
         'DESIGN.md section 5, C09',
     ),
     'C10': (
-        "finalize_with_options == reference gates for all states and all 32 option settings (lemma F of C01), DataLengthValidity::new/is_err/is_err_on == reference for all 2^32 lengths, 3 bucket sizes, 2 modes, published constants equal; monotonicity of the reference gates in the permissiveness order for all inputs; and directly on the real code: two finalize calls on the same arbitrary Short state with o <= o' give Ok(h) => Ok(h).",
-        "Trusted: Kani's MIR->goto translation, CBMC 6.11 + CaDiCaL, the reference model in harness/refmodel.rs (independent table copies), the stubs listed per harness in the evidence (each a model of an unsupported intrinsic, a proved contract, or a caller-supplied trait impl). The direct two-call harness uses an arbitrary ordered quartile triple (same for both calls).",
-        'Kani/CBMC bounded model checking (SAT) of the compiled MIR with symbolic inputs; lemma decomposition; native replay of counterexamples',
+        "finalize_with_options == reference gates for all states and all 32 option settings (lemma F of C01), DataLengthValidity::new/is_err/is_err_on == reference for all 2^32 lengths, 3 bucket sizes, 2 modes, published constants equal; monotonicity of the reference gates in the permissiveness order for all inputs; and directly on the real code: two finalize calls on the same arbitrary Short state with o <= o' give Ok(h) => Ok(h) (power-of-two third quartile); the MIR->SMT instance of C01 shows for ALL quartile triples that on every path of finalize (permissive flags free) the Q ratios are the reference function of the mode and of the quartiles handed to the body aggregation.",
+        "Trusted: Kani's MIR->goto translation, CBMC 6.11 + CaDiCaL, the reference model in harness/refmodel.rs (independent table copies), the stubs listed per harness in the evidence (each a model of an unsupported intrinsic, a proved contract, or a caller-supplied trait impl). The direct two-call harness uses an arbitrary ordered quartile triple (same for both calls). MIR->SMT instance: trusts the nightly MIR dump, my translator (havoc outside its fragment), SMT-LIB FloatingPoint semantics, z3 and cvc5.",
+        'Kani/CBMC bounded model checking (SAT) of the compiled MIR with symbolic inputs; lemma decomposition; plus symbolic execution of the nightly MIR dump into SMT-LIB2 decided by z3 and cvc5 for the loop-free Q-ratio slice; native replay of counterexamples',
         'DESIGN.md section 5, C10',
     ),
     'C11': (
